@@ -86,6 +86,9 @@ func (t *TrafBox) ParseReadSenc(defaultIVSize byte, moofStartPos uint64) error {
 	}
 	if t.Saio != nil {
 		// saio should be present, but we try without it, if it doesn't exist
+		if len(t.Saio.Offset) == 0 {
+			return fmt.Errorf("saio box without offsets")
+		}
 		posFromSaio := t.Saio.Offset[0] + int64(moofStartPos)
 		if uint64(posFromSaio) != senc.StartPos+16 {
 			//TODO. Reenable
@@ -105,8 +108,14 @@ func (t *TrafBox) ParseReadSenc(defaultIVSize byte, moofStartPos uint64) error {
 		if sgpdEntryNr != sbgpInsideOffset+1 {
 			return fmt.Errorf("sgpd entry number must be first inside = 65536 + 1")
 		}
+		if len(sgpd.SampleGroupEntries) == 0 {
+			return fmt.Errorf("sgpd box without sample group entries")
+		}
 		sgpdEntry := sgpd.SampleGroupEntries[sgpdEntryNr-sbgpInsideOffset-1]
-		seigEntry := sgpdEntry.(*SeigSampleGroupEntry)
+		seigEntry, ok := sgpdEntry.(*SeigSampleGroupEntry)
+		if !ok {
+			return fmt.Errorf("sgpd entry is not a seig sample group entry")
+		}
 		perSampleIVSize = seigEntry.PerSampleIVSize
 	}
 	err := senc.ParseReadBox(perSampleIVSize, t.Saiz)
